@@ -289,6 +289,58 @@ Fixpoint run (s : state) (ops : list op) : state :=
 Fixpoint run_events (s : state) (ops : list op) : list (list event) :=
   match ops with [] => [] | o :: r => snd (step s o) :: run_events (fst (step s o)) r end.
 
+(* ---------------------------------------------------------------- the same system with the deletion rule of
+   freeYourReferenceTracker as a PARAMETER (the source's rule is freeTracker_delkey; `step_k freeTracker_delkey` is `step`).
+   DelByIdentity is the candidate repair of D16: the answer to a decref removes the import-table entry only if that entry
+   still is the answered tracker (`if self.yourReferenceByCLID.get(tracker.clid) is tracker`). *)
+Definition do_ack_k (k : delkey) (s : state) (rid : Z) (rest : list msgOH) : state * list event :=
+  let h := hd s in
+  let tab :=
+    match acks_get (h_acks h) rid with
+    | Some i =>
+      match nth_error (h_trk h) i with
+      | Some t =>
+        if freeTracker_keeps (t_recv t) then h_tab h
+        else match k with
+             | DelByClid => tab_del (h_tab h) (t_clid t)
+             | DelByIdentity => match tab_get (h_tab h) (t_clid t) with
+                                | Some j => if Nat.eqb i j then tab_del (h_tab h) (t_clid t) else h_tab h
+                                | None => h_tab h
+                                end
+             end
+      | None => h_tab h
+      end
+    | None => h_tab h
+    end in
+  ({| ow := ow s;
+      hd := {| h_trk := h_trk h; h_tab := tab; h_nextpid := h_nextpid h; h_nextrid := h_nextrid h;
+               h_pend := h_pend h; h_acks := acks_del (h_acks h) rid |};
+      ch_oh := rest; ch_ho := ch_ho s; lost := lost s; leaked := leaked s |}, []).
+
+Definition do_recv_oh_k (k : delkey) (s : state) : state * list event :=
+  match ch_oh s with
+  | [] => (s, [])
+  | MyRef c true :: rest =>
+    ({| ow := ow s; hd := hd s; ch_oh := rest; ch_ho := ch_ho s; lost := lost s; leaked := c :: leaked s |}, [])
+  | MyRef c false :: rest => do_myref s c rest
+  | Ack rid :: rest => do_ack_k k s rid rest
+  end.
+
+Definition step_k (k : delkey) (s : state) (o : op) : state * list event :=
+  if lost s then (s, [])
+  else match o with
+       | Send x d => do_send s x d
+       | RecvOH => do_recv_oh_k k s
+       | RecvHO => do_recv_ho s
+       | DropProxy p => do_drop s p
+       | HandleRefLost => do_reflost s
+       | SendHome p k' => do_home s p k'
+       | ConnLost => do_lost s
+       end.
+
+Fixpoint run_k (k : delkey) (s : state) (ops : list op) : state :=
+  match ops with [] => s | o :: r => run_k k (fst (step_k k s o)) r end.
+
 (* ---------------------------------------------------------------- counting functions used by the invariant *)
 Definition contrib (t : tracker) (c : Z) : Z := if t_clid t =? c then t_recv t else 0.
 Fixpoint recv_sum (trk : list tracker) (c : Z) : Z :=
